@@ -32,6 +32,7 @@ import (
 )
 
 var chk *mc.Check
+var siteFuncs []string
 
 const workerBin = "/verif/build/bin/c18worker"
 const racerBin = "/verif/build/bin/c18racer"
@@ -73,6 +74,7 @@ type traceOut struct {
 	WriteEvents int64    `json:"writeEvents"`
 	CapHit      bool     `json:"capHit"`
 	Panics      []string `json:"panics"`
+	Sites       []uint32 `json:"sites"`
 }
 
 func worker(req interface{}, out interface{}) error {
@@ -152,13 +154,13 @@ func main() {
 	chk.Assume("shared state = memory reachable from package-level variables of the library (registered automatically by the instrumenter); a statement can touch it if it mentions such a variable or runs inside a function that received a pointer/slice/map argument or receiver pointing into it")
 	chk.Assume("sequential consistency between scheduling points; unsynchronised accesses and weaker orderings are the race detector's part (stage 3)")
 	var info struct {
-		Roots, Sites, Ops []string
+		Roots, Sites, Funcs, Ops []string
 	}
 	if err := worker(map[string]string{"mode": "roots"}, &info); err != nil {
 		fmt.Fprintln(os.Stderr, "C18: cannot run the worker:", err)
 		os.Exit(2)
 	}
-	roots, sites, opNames = info.Roots, info.Sites, info.Ops
+	roots, sites, siteFuncs, opNames = info.Roots, info.Sites, info.Funcs, info.Ops
 	chk.Subspace("instrumentation", map[string]interface{}{"package_level_variables": len(roots), "statement_sites": len(sites), "operations": len(opNames)})
 	if chk.ReplayFile() != "" {
 		replay()
@@ -205,9 +207,89 @@ func stage1() {
 	}
 	sort.Strings(wl)
 	chk.Subspace("stage 1 result: shared variables written after initialisation", wl)
+	reportReach()
 	if len(wl) == 0 {
 		chk.Note("no operation writes any package-level state: all operations are independent; stage 2 runs every thread order (non-preemptive schedules) and re-validates that shared state stays unchanged")
 	}
+}
+
+// reportReach states what the operation alphabet reaches: which package-level variables some
+// operation can touch, and which functions of the library no operation executes. A change that
+// gives shared state to a function outside the alphabet is invisible to stages 2 and 3; the list
+// is the measure of that blind spot (evidence only, never a violation).
+func reportReach() {
+	touched := map[int]bool{}
+	hit := map[uint32]bool{}
+	for _, t := range solo {
+		for _, r := range t.Accessed {
+			touched[r] = true
+		}
+		for _, r := range t.Changed {
+			touched[r] = true
+		}
+		for _, s := range t.Sites {
+			hit[s] = true
+		}
+	}
+	var untouched []string
+	for i := range roots {
+		if !touched[i] {
+			untouched = append(untouched, rootNames([]int{i})[0])
+		}
+	}
+	sort.Strings(untouched)
+	type fc struct{ total, hit int }
+	funcs := map[string]*fc{}
+	pk := map[string]*fc{}
+	for i, f := range siteFuncs {
+		if i == 0 || f == "" {
+			continue
+		}
+		p := f
+		if k := strings.Index(f, "."); k >= 0 {
+			p = f[:k]
+		}
+		if funcs[f] == nil {
+			funcs[f] = &fc{}
+		}
+		if pk[p] == nil {
+			pk[p] = &fc{}
+		}
+		funcs[f].total++
+		pk[p].total++
+		if hit[uint32(i)] {
+			funcs[f].hit++
+			pk[p].hit++
+		}
+	}
+	var dead []string
+	reached := 0
+	for f, c := range funcs {
+		if c.hit == 0 {
+			dead = append(dead, f)
+		} else {
+			reached++
+		}
+	}
+	sort.Strings(dead)
+	per := map[string]string{}
+	stmts, hits := 0, 0
+	for p, c := range pk {
+		name := p
+		if name == "" {
+			name = "(root)"
+		}
+		per[name] = fmt.Sprintf("%d of %d statements", c.hit, c.total)
+		stmts += c.total
+		hits += c.hit
+	}
+	chk.Subspace("reach of the operation alphabet (stage 1 traces)", map[string]interface{}{
+		"package_level_variables_no_operation_touches": untouched,
+		"functions_reached":                            fmt.Sprintf("%d of %d", reached, len(funcs)),
+		"statements_reached":                           fmt.Sprintf("%d of %d", hits, stmts),
+		"statements_by_package":                        per,
+		"functions_no_operation_executes":              dead,
+	})
 }
 
 // ------------------------------------------------------------------ stage 2
